@@ -2,9 +2,10 @@
    (Modules.Process, Modules.GetModule, Entry.GetErrors) and the removal of duplicates.
    No proofs in this file.
 
-     func nless(a, b string) int                 strconv.Atoi on both; both numeric => numeric, else a < b on strings
+     func nless(a, b string) int                 strconv.Atoi on both; both numeric => numeric; a number before a
+                                                 non-number; two non-numbers => a < b on strings
      func (s sortedErrors) Less(i, j int) bool   strings.SplitN(s, ":", 4); field 0 as a string; fields 1..3 by nless,
-                                                 a missing field sorts first
+                                                 a missing field sorts first; all equal => the whole texts as strings
      func errorSort(errors []error) []error      sort.Sort, then drop an error that is reflect.DeepEqual to the last kept
 
    Error values are modelled by their text (a Go string = a list of bytes).  errorSort drops an error when it is
@@ -81,26 +82,30 @@ Definition atoi (s : bstr) : option Z :=
          end
   end.
 
-(* nless: Lt / Eq / Gt for -1 / 0 / 1 *)
+(* nless: Lt / Eq / Gt for -1 / 0 / 1.  Both numeric: as numbers; a number sorts before anything that is not a
+   number; two non-numbers: as strings *)
 Definition nless (a b : bstr) : comparison :=
   match atoi a, atoi b with
   | Some x, Some y => Z.compare x y
-  | _, _ => str_cmp a b
+  | Some _, None => Lt
+  | None, Some _ => Gt
+  | None, None => str_cmp a b
   end.
 
 (* the loop `for i := 1; i < errorSplitCount; i++` of Less over the fields after the first one:
-   len(fj) == i => false; len(fi) == i => true; nless decides unless it says equal *)
-Fixpoint less_fields (fi fj : list bstr) : bool :=
-  match fj with
-  | [] => false
-  | y :: fj' =>
-    match fi with
-    | [] => true
-    | x :: fi' => match nless x y with Lt => true | Gt => false | Eq => less_fields fi' fj' end
-    end
+   both missing => si < sj; len(fj) == i => false; len(fi) == i => true; nless decides unless it says equal;
+   after the loop (both had all fields, all equal under nless) => si < sj.  [tie] is si < sj *)
+Fixpoint less_fields (tie : bool) (fi fj : list bstr) : bool :=
+  match fi, fj with
+  | [], [] => tie
+  | _ :: _, [] => false
+  | [], _ :: _ => true
+  | x :: fi', y :: fj' => match nless x y with Lt => true | Gt => false | Eq => less_fields tie fi' fj' end
   end.
 
 Definition errorSplitCount : nat := 4.
+
+Definition str_ltb (a b : bstr) : bool := match str_cmp a b with Lt => true | _ => false end.
 
 (* sortedErrors.Less on the texts of the two errors *)
 Definition Less (s t : bstr) : bool :=
@@ -109,9 +114,39 @@ Definition Less (s t : bstr) : bool :=
     match str_cmp f0 g0 with
     | Lt => true
     | Gt => false
-    | Eq => less_fields fi fj
+    | Eq => less_fields (str_ltb s t) fi fj
     end
   | _, _ => false          (* unreachable: SplitN with n > 0 returns at least one field *)
+  end.
+
+(* ------------------------------------------------------------------ before the repair (commit 11569ed)
+   kept for the _refuted theorems of Properties/C05.v: a number and a non-number were compared as strings, a field
+   missing on both sides and the end of the loop gave `false` *)
+Definition nless_old (a b : bstr) : comparison :=
+  match atoi a, atoi b with
+  | Some x, Some y => Z.compare x y
+  | _, _ => str_cmp a b
+  end.
+
+Fixpoint less_fields_old (fi fj : list bstr) : bool :=
+  match fj with
+  | [] => false
+  | y :: fj' =>
+    match fi with
+    | [] => true
+    | x :: fi' => match nless_old x y with Lt => true | Gt => false | Eq => less_fields_old fi' fj' end
+    end
+  end.
+
+Definition Less_old (s t : bstr) : bool :=
+  match splitN errorSplitCount s, splitN errorSplitCount t with
+  | f0 :: fi, g0 :: fj =>
+    match str_cmp f0 g0 with
+    | Lt => true
+    | Gt => false
+    | Eq => less_fields_old fi fj
+    end
+  | _, _ => false
   end.
 
 (* ------------------------------------------------------------------ sort + de-duplication *)
@@ -144,4 +179,11 @@ Definition errorSort (errors : list bstr) : list bstr :=
   | [] => []
   | [e] => [e]
   | _ => dedup (isort Less errors)
+  end.
+
+Definition errorSort_old (errors : list bstr) : list bstr :=
+  match errors with
+  | [] => []
+  | [e] => [e]
+  | _ => dedup (isort Less_old errors)
   end.
